@@ -5,11 +5,15 @@
 
      def wait(deferred):                                   [wait_top]
          seen = []
+         polynomial_steps = 0
          while isinstance(deferred, BaseDeferred):
-             if len(seen) >= BOUND or any(deferred is prev for prev in seen):
+             if len(seen) >= N1 or polynomial_steps >= N2 or any(deferred is prev for prev in seen):
                  raise DeferredCycle()
              seen.append(deferred)
-             deferred = deferred.wait()
+             value = deferred.wait()
+             if isinstance(deferred, LinearPolynomial) and isinstance(value, LinearPolynomial):
+                 polynomial_steps += 1
+             deferred = value
          return deferred
 
      BaseDeferred.wait:  with Awaiting(self): return self._wait()
@@ -88,21 +92,28 @@ Fixpoint eval_deps (rec : state -> nat -> res) (deps : list nat) (acc : list Z) 
   end.
 
 Section Wait.
-  Variable bound : nat.        (* the literal in `len(seen) >= N` of deferred.wait: Gen/GenPartial.v wait_seen_bound *)
+  Variable bound : nat.        (* N1, the literal in `len(seen) >= N1` of deferred.wait: Gen/GenPartial.v wait_seen_bound *)
+  Variable bound2 : nat.       (* N2, the literal in `polynomial_steps >= N2`: Gen/GenPartial.v wait_poly_bound *)
+  Variable isp : nat -> bool.  (* isinstance(node k, LinearPolynomial) *)
   Variable spec : bool.        (* try_compute.depth > 0 *)
   Variable G : graph.
 
   Inductive sres := SRes (r : nres) (st : state) | SRaise (e : exn) (st : state) | SFuel.
 
   (* one iteration of the while loop in wait(), then the rest of the loop *)
-  Fixpoint wait_top (fuel : nat) (st : state) (seen : list nat) (i : nat) : res :=
+  (* polynomial_steps after the step from object i to the object j it yielded *)
+  Definition next_p (p i j : nat) : nat := if isp i && isp j then S p else p.
+  Definition stop_check (seen : list nat) (p i : nat) : bool :=
+    (bound <=? length seen) || (bound2 <=? p) || existsb (Nat.eqb i) seen.
+
+  Fixpoint wait_top (fuel : nat) (st : state) (seen : list nat) (p : nat) (i : nat) : res :=
     match fuel with
     | O => RFuel
     | S f =>
       match nth_error G i with
       | None => RRaise ECrash st
       | Some nd =>
-        if (bound <=? length seen) || existsb (Nat.eqb i) seen then RRaise ECycle st
+        if stop_check seen p i then RRaise ECycle st
         else if is_await st i then RRaise ECycle st           (* Awaiting.__enter__ *)
         else
           let st1 := set_await st i true in
@@ -114,7 +125,7 @@ Section Wait.
               match get_settled st1 i with
               | Some v => SRes v st1
               | None =>
-                match eval_deps (fun s d => wait_top f s [] d) deps [] st1 with
+                match eval_deps (fun s d => wait_top f s [] 0 d) deps [] st1 with
                 | DDone vals st2 => let v := g vals in SRes v (set_settled st2 i v)
                 | DRaise e st2 => SRaise e st2
                 | DFuel => SFuel
@@ -128,20 +139,20 @@ Section Wait.
             let st3 := set_await st2 i false in                (* Awaiting.__exit__ *)
             match v with
             | NVal z => RVal z st3
-            | NFwd j => wait_top f st3 (i :: seen) j           (* seen.append(deferred); next iteration *)
+            | NFwd j => wait_top f st3 (i :: seen) (next_p p i j) j   (* seen.append(deferred); count; next iteration *)
             end
           end
       end
     end.
 
-  Definition wait (fuel : nat) (st : state) (i : nat) : res := wait_top fuel st [] i.
+  Definition wait (fuel : nat) (st : state) (i : nat) : res := wait_top fuel st [] 0 i.
 
 End Wait.
 
 (* with try_compute: return tmp.wait()  -- None when NotReadyError / DeferredCycle was swallowed *)
 Inductive tres := TVal (z : Z) (st : state) | TSwallowed (st : state) | TCrash (st : state) | TFuel.
-Definition try_wait (bound : nat) (G : graph) (fuel : nat) (st : state) (i : nat) : tres :=
-  match wait bound true G fuel st i with
+Definition try_wait (bound bound2 : nat) (isp : nat -> bool) (G : graph) (fuel : nat) (st : state) (i : nat) : tres :=
+  match wait bound bound2 isp true G fuel st i with
   | RVal z st' => TVal z st'
   | RRaise ECycle st' | RRaise ENotReady st' => TSwallowed st'
   | RRaise ECrash st' => TCrash st'
